@@ -96,6 +96,7 @@ impl Check for C07 {
             let simpler = match a {
                 crate::host::Answer::DeferValue(v) => Some(crate::host::Answer::Value(v.clone())),
                 crate::host::Answer::DeferReject(m) => Some(crate::host::Answer::Error(m.clone())),
+                crate::host::Answer::Undefined => Some(crate::host::Answer::Value(serde_json::json!(1))),
                 _ => None,
             };
             if let Some(sa) = simpler {
